@@ -2,6 +2,7 @@ package main
 
 import (
 	"math"
+	"strconv"
 	"strings"
 	"unicode/utf8"
 
@@ -151,13 +152,25 @@ type treeOpts struct {
 	maxRefs  int
 	refCount *int
 	pos      *int
+	leafNum  int  // chance leafNum/leafDen that a node above the depth limit is a leaf (0: 2/5)
+	leafDen  int
+	minWidth int  // containers have minWidth..width children (entries)
+	budget   *int // nodes left; exhausted: leaves only
 }
 
 func randTree(r *lib.Rng, o treeOpts, depth int) *Ev {
 	if o.pos == nil {
 		o.pos, o.refCount = new(int), new(int)
 	}
-	leaf := depth >= o.depth || r.Chance(2, 5)
+	ln, ld := 2, 5
+	if o.leafDen > 0 {
+		ln, ld = o.leafNum, o.leafDen
+	}
+	leaf := depth >= o.depth || r.Chance(ln, ld)
+	if o.budget != nil {
+		*o.budget--
+		leaf = leaf || *o.budget < 0
+	}
 	if leaf {
 		if o.refs && *o.refCount < o.maxRefs && r.Chance(1, 6) {
 			*o.refCount++
@@ -171,7 +184,7 @@ func randTree(r *lib.Rng, o treeOpts, depth int) *Ev {
 		return randScalar(r, o.data)
 	}
 	*o.pos++
-	n := r.Intn(o.width + 1)
+	n := o.minWidth + r.Intn(o.width-o.minWidth+1)
 	if r.Chance(1, 2) {
 		l := make([]*Ev, n)
 		for i := range l {
@@ -199,6 +212,223 @@ func randTree(r *lib.Rng, o treeOpts, depth int) *Ev {
 		l = append(l, randTree(r, o, depth+1))
 	}
 	return evHash(l...)
+}
+
+// ---- sizes beyond every capacity the code preallocates ----
+//
+// protoConsumer.stack and BasicCollector.stack start with room for 8 frames (convert.go:24, basiccollector.go:21),
+// BasicCollector.values with room for 64 positions (:20), every frame with room for the length hint (JsonToData: 8).
+// Go slices move to a new backing array when they outgrow that; code that is right only while nothing moves is
+// wrong from nesting depth 8 / 9 elements / 65 positions on.  These families cover every depth, width and position
+// count across those boundaries (and well beyond), with distinct scalars on both sides of every nested container
+// so that a lost, duplicated or misplaced element is visible.
+
+type famEv struct {
+	fam string
+	e   *Ev
+}
+
+// kind pattern of a chain of nested containers: level -> "arr" | "hash"
+type kindPat struct {
+	name string
+	at   func(level int) bool // true: hash
+}
+
+func kindPats(r *lib.Rng) []kindPat {
+	m1, m2 := r.Next(), r.Next()
+	return []kindPat{
+		{"arr", func(int) bool { return false }},
+		{"hash", func(int) bool { return true }},
+		{"alt", func(l int) bool { return l%2 == 1 }},
+		{"alt2", func(l int) bool { return l%2 == 0 }},
+		{"rnd1", func(l int) bool { return m1>>(uint(l)%64)&1 == 1 }},
+		{"rnd2", func(l int) bool { return m2>>(uint(l)%64)&1 == 1 }},
+	}
+}
+
+// distinct scalars: an integer, a float, a short string by turns
+func serialScalar(n *int) *Ev {
+	*n++
+	switch *n % 3 {
+	case 0:
+		return evFloat(float64(*n) + 0.5)
+	case 1:
+		return evInt(int64(*n))
+	}
+	return evStr("s" + strconv.Itoa(*n))
+}
+
+// spine: d nested containers; at every level `before` scalars precede and `after` scalars follow the nested one
+// (a hash: entries "b<i>": scalar, then "n": nested, then "a<i>": scalar; with keyPos the nested container of a hash
+// is the KEY of its entry - only a consumer with CanDoComplexKeys is entitled to that)
+func spine(d int, kp kindPat, before, after int, bottom *Ev, keyPos bool, n *int, level int) *Ev {
+	if d == 0 {
+		return bottom
+	}
+	var l []*Ev
+	hash := kp.at(level)
+	for i := 0; i < before; i++ {
+		if hash {
+			l = append(l, evStr("b"+strconv.Itoa(i)))
+		}
+		l = append(l, serialScalar(n))
+	}
+	inner := spine(d-1, kp, before, after, bottom, keyPos, n, level+1)
+	switch {
+	case hash && keyPos:
+		l = append(l, inner, serialScalar(n))
+	case hash:
+		l = append(l, evStr("n"), inner)
+	default:
+		l = append(l, inner)
+	}
+	for i := 0; i < after; i++ {
+		if hash {
+			l = append(l, evStr("a"+strconv.Itoa(i)))
+		}
+		l = append(l, serialScalar(n))
+	}
+	if hash {
+		return evHash(l...)
+	}
+	return evArr(l...)
+}
+
+// bushy: a complete tree, every container holds scalar, nested, scalar, nested, scalar (the stack shrinks back
+// and grows again many times)
+func bushy(d int, kp kindPat, n *int, level int) *Ev {
+	if d == 0 {
+		return serialScalar(n)
+	}
+	var l []*Ev
+	hash := kp.at(level)
+	add := func(k string, v *Ev) {
+		if hash {
+			l = append(l, evStr(k))
+		}
+		l = append(l, v)
+	}
+	add("p", serialScalar(n))
+	add("l", bushy(d-1, kp, n, level+1))
+	add("q", serialScalar(n))
+	add("r", bushy(d-1, kp, n, level+1))
+	add("s", serialScalar(n))
+	if hash {
+		return evHash(l...)
+	}
+	return evArr(l...)
+}
+
+// wide: one container of w elements / entries; every `nestEvery`-th element is itself a container
+func wide(w int, hash bool, nestEvery int, n *int) *Ev {
+	var l []*Ev
+	for i := 0; i < w; i++ {
+		if hash {
+			l = append(l, evStr("k"+strconv.Itoa(i)))
+		}
+		switch {
+		case nestEvery > 0 && i%nestEvery == nestEvery-1 && i%2 == 0:
+			l = append(l, evArr(serialScalar(n)))
+		case nestEvery > 0 && i%nestEvery == nestEvery-1:
+			l = append(l, evHash(evStr("x"), serialScalar(n)))
+		default:
+			l = append(l, serialScalar(n))
+		}
+	}
+	if hash {
+		return evHash(l...)
+	}
+	return evArr(l...)
+}
+
+// manyRefs: w distinct values (position 0 is the array itself, element i has position i+1), one closed container among
+// them, then back-references to positions on both sides of the 64-position boundary
+func manyRefs(w int) *Ev {
+	n := 1000
+	l := []*Ev{evArr(evInt(-1), evStr("inner"))} // positions 1, 2, 3
+	for i := 0; i < w; i++ {
+		l = append(l, serialScalar(&n)) // position 4+i
+	}
+	last := int64(3 + w)
+	for _, p := range []int64{1, 2, 3, 4, 62, 63, 64, 65, 66, 127, 128, 129, last - 1, last} {
+		if p >= 1 && p <= last {
+			l = append(l, evRef(p))
+		}
+	}
+	return evArr(l...)
+}
+
+func beyondCapacity(r *lib.Rng, thorough bool) []famEv {
+	var out []famEv
+	depths := []int{1, 2, 3, 4, 5, 6, 7, 8, 9, 10, 11, 12, 13, 15, 16, 17, 18, 24, 31, 32, 33, 40, 64, 65, 100}
+	widths := []int{0, 1, 2, 7, 8, 9, 10, 15, 16, 17, 31, 32, 33, 63, 64, 65, 66, 100, 127, 128, 129, 200}
+	bushyMax := 7
+	if thorough {
+		for d := 19; d <= 48; d++ {
+			depths = append(depths, d)
+		}
+		depths = append(depths, 128, 129, 200, 257)
+		widths = append(widths, 255, 256, 257, 500, 1000, 1025)
+		bushyMax = 10
+	}
+	kps := kindPats(r)
+	sib := [][2]int{{0, 0}, {1, 0}, {0, 1}, {1, 1}, {2, 3}}
+	n := 0
+	for _, d := range depths {
+		for _, kp := range kps {
+			for si, ba := range sib {
+				var bottom *Ev
+				switch (d + si) % 4 {
+				case 0:
+					bottom = evArr()
+				case 1:
+					bottom = evHash()
+				case 2:
+					bottom = evArr(evInt(42), evFloat(0.5))
+				default:
+					bottom = evInt(int64(d))
+				}
+				out = append(out, famEv{"deep", spine(d, kp, ba[0], ba[1], bottom, false, &n, 0)})
+			}
+			if kp.name != "arr" {
+				out = append(out, famEv{"deep-complex-key", spine(d, kp, 1, 1, evInt(int64(d)), true, &n, 0)})
+			}
+		}
+		// a back-reference at the bottom of the chain, to a value added before the chain was entered
+		out = append(out, famEv{"deep-ref", evArr(evStr("a string longer than twenty bytes"),
+			spine(d, kps[d%len(kps)], 1, 1, evRef(1), false, &n, 0), evRef(1))})
+	}
+	for d := 1; d <= bushyMax; d++ {
+		for _, kp := range kps[:4] {
+			out = append(out, famEv{"bushy", bushy(d, kp, &n, 0)})
+		}
+	}
+	for _, w := range widths {
+		for _, hash := range []bool{false, true} {
+			out = append(out, famEv{"wide", wide(w, hash, 0, &n)}, famEv{"wide", wide(w, hash, 3, &n)},
+				famEv{"wide", evArr(evInt(0), wide(w, hash, 8, &n), evInt(1))})
+		}
+		out = append(out, famEv{"wide-refs", manyRefs(w)})
+		// wide at the bottom of a chain that is itself beyond the stack capacity
+		out = append(out, famEv{"deep-wide", spine(9+w%3, kps[w%len(kps)], 1, 1, wide(w, w%2 == 1, 4, &n), false, &n, 0)})
+	}
+	return out
+}
+
+// randBeyond: seeded random trees whose depth, width or position count crosses the capacities
+func randBeyond(r *lib.Rng, refs, anyKeys, data bool) *Ev {
+	budget := 150 + r.Intn(250)
+	o := treeOpts{refs: refs, maxRefs: 6, anyKeys: anyKeys, data: data, budget: &budget}
+	switch r.Intn(3) {
+	case 0: // deep and narrow
+		o.depth, o.width, o.minWidth, o.leafNum, o.leafDen = 6+r.Intn(14), 1+r.Intn(3), 1, 1, 8
+	case 1: // wide and shallow
+		o.depth, o.width, o.minWidth, o.leafNum, o.leafDen = 1+r.Intn(2), 9+r.Intn(60), 6, 4, 5
+	default: // many positions
+		o.depth, o.width, o.minWidth, o.leafNum, o.leafDen = 3+r.Intn(4), 2+r.Intn(5), 1, 1, 3
+		budget = 100 + r.Intn(400)
+	}
+	return randTree(r, o, 0)
 }
 
 // ---- bounded-exhaustive structure family ----
@@ -278,19 +508,27 @@ func randLexeme(r *lib.Rng) string {
 }
 
 // randJSONPieces: the lexemes of a random valid JSON value
-func randJSONPieces(r *lib.Rng, depth int, out *[]string) {
-	if depth >= 4 || r.Chance(2, 5) {
+func randJSONPieces(r *lib.Rng, depth int, out *[]string) { randJSONPiecesD(r, depth, 4, 4, out) }
+
+// randJSONPiecesD: nesting up to maxDepth, up to maxN-1 members per container
+func randJSONPiecesD(r *lib.Rng, depth, maxDepth, maxN int, out *[]string) {
+	if maxDepth > 4 && depth < maxDepth && len(*out) < 600 && r.Chance(4, 5) {
+		// the deep family: keep descending
+	} else if depth >= maxDepth || len(*out) >= 600 || r.Chance(2, 5) {
 		*out = append(*out, randLexeme(r))
 		return
 	}
-	n := r.Intn(4)
+	n := r.Intn(maxN)
+	if maxDepth > 4 && n == 0 && depth < maxDepth {
+		n = 1
+	}
 	if r.Bool() {
 		*out = append(*out, "[")
 		for i := 0; i < n; i++ {
 			if i > 0 {
 				*out = append(*out, ",")
 			}
-			randJSONPieces(r, depth+1, out)
+			randJSONPiecesD(r, depth+1, maxDepth, maxN, out)
 		}
 		*out = append(*out, "]")
 		return
